@@ -7,6 +7,8 @@ import (
 	"go/ast"
 	"go/parser"
 	"go/token"
+	"os"
+	"path/filepath"
 	"sort"
 	"strconv"
 	"strings"
@@ -129,6 +131,9 @@ func genCase(maxSteps int) func(t *rapid.T) Case {
 			switch a.Kind {
 			case "add", "render_stmt", "render_group":
 				a.I = rapid.IntRange(0, 40).Draw(t, "idx")
+			case "render_file":
+				// the File's other entry points render it just the same
+				a.Name = rapid.SampledFrom([]string{"", "", "gostring", "save"}).Draw(t, "via")
 			case "hint_name":
 				a.Path = rapid.SampledFrom(paths).Draw(t, "hpath")
 				a.Name = rapid.SampledFrom([]string{"d", "e", "foo", "rand", "fmt", "d1", "zz"}).Draw(t, "hname")
@@ -371,7 +376,44 @@ func check(c Case) error {
 			}
 		case "render_file":
 			what := "File.Render"
-			out, err := renderN(step, what, a.Reps, func(w *bytes.Buffer) error { return f.Render(w) })
+			entry := func(w *bytes.Buffer) error { return f.Render(w) }
+			switch a.Name {
+			case "gostring":
+				what = "File.GoString"
+				entry = func(w *bytes.Buffer) (err error) {
+					defer func() {
+						if p := recover(); p != nil {
+							if e, ok := p.(error); ok {
+								err = e // GoString panics with the error Render returns
+								return
+							}
+							panic(p)
+						}
+					}()
+					w.WriteString(f.GoString())
+					return nil
+				}
+			case "save":
+				what = "File.Save"
+				entry = func(w *bytes.Buffer) error {
+					dir, derr := os.MkdirTemp("", "c08save")
+					if derr != nil {
+						return f.Render(w)
+					}
+					defer os.RemoveAll(dir)
+					p := filepath.Join(dir, "out.go")
+					if err := f.Save(p); err != nil {
+						return err
+					}
+					b, rerr := os.ReadFile(p)
+					if rerr != nil {
+						return rerr
+					}
+					w.Write(b)
+					return nil
+				}
+			}
+			out, err := renderN(step, what, a.Reps, entry)
 			if err != nil {
 				return err
 			}
